@@ -26,8 +26,10 @@ static MONO_OFFSET_NS: AtomicI64 = AtomicI64::new(0);
 static GATE_ON: AtomicBool = AtomicBool::new(false);
 /// tickets are global and monotonic: a sleeper parked in an earlier run can never be woken by a later one
 static NEXT_TICKET: AtomicUsize = AtomicUsize::new(0);
-static RELEASED: AtomicUsize = AtomicUsize::new(0);
-static SLEEP_LOG: Mutex<Vec<(usize, i64, i64)>> = Mutex::new(Vec::new());
+/// tickets that have been released (a ticket is released once, by the script that owns its thread)
+static RELEASED: Mutex<Vec<usize>> = Mutex::new(Vec::new());
+/// (ticket, thread, seconds, nanoseconds)
+static SLEEP_LOG: Mutex<Vec<(usize, std::thread::ThreadId, i64, i64)>> = Mutex::new(Vec::new());
 static GATE_MX: Mutex<()> = Mutex::new(());
 static GATE_CV: std::sync::Condvar = std::sync::Condvar::new();
 
@@ -60,13 +62,29 @@ pub fn sleep_requests() -> usize {
 
 /// (ticket, seconds, nanoseconds) of every gated sleep request with ticket > `after`
 pub fn sleep_log_after(after: usize) -> Vec<(usize, i64, i64)> {
-    SLEEP_LOG.lock().unwrap().iter().filter(|x| x.0 > after).cloned().collect()
+    SLEEP_LOG.lock().unwrap().iter().filter(|x| x.0 > after).map(|x| (x.0, x.2, x.3)).collect()
+}
+
+/// the same, restricted to the sleeps of one thread (the reader thread a script owns: readers leaked
+/// by earlier scripts in the same process must not be mistaken for it)
+pub fn sleep_log_of(thread: std::thread::ThreadId, after: usize) -> Vec<(usize, i64, i64)> {
+    SLEEP_LOG.lock().unwrap().iter().filter(|x| x.0 > after && x.1 == thread).map(|x| (x.0, x.2, x.3)).collect()
 }
 
 /// let the most recent sleeper return
 pub fn release_latest_sleep() {
     let _g = GATE_MX.lock().unwrap();
-    RELEASED.store(NEXT_TICKET.load(SeqCst), SeqCst);
+    RELEASED.lock().unwrap().push(NEXT_TICKET.load(SeqCst));
+    GATE_CV.notify_all();
+}
+
+/// let the most recent sleep of this thread return
+pub fn release_sleep_of(thread: std::thread::ThreadId) {
+    let _g = GATE_MX.lock().unwrap();
+    let t = SLEEP_LOG.lock().unwrap().iter().rev().find(|x| x.1 == thread).map(|x| x.0);
+    if let Some(t) = t {
+        RELEASED.lock().unwrap().push(t);
+    }
     GATE_CV.notify_all();
 }
 
@@ -134,10 +152,10 @@ fn gated_sleep(req: *const libc::timespec) -> bool {
     let mut g = GATE_MX.lock().unwrap();
     let ticket = NEXT_TICKET.fetch_add(1, SeqCst) + 1;
     if let Ok(mut l) = SLEEP_LOG.lock() {
-        l.push((ticket, s, ns));
+        l.push((ticket, std::thread::current().id(), s, ns));
     }
     loop {
-        if RELEASED.load(SeqCst) == ticket {
+        if RELEASED.lock().map(|r| r.contains(&ticket)).unwrap_or(false) {
             // the pause "happened": virtual time moves on by the requested duration
             MONO_OFFSET_NS.fetch_add(s * 1_000_000_000 + ns, SeqCst);
             return true;
